@@ -472,13 +472,10 @@ def Suppr.transportView (simp : Str → Str) (s : Suppr) : Suppr :=
   { s with fileName := (if s.fileName.isEmpty then [] else simp s.fileName),
            type := 0, lineBegin := -1, lineEnd := -1, macroName := [], hash := 0, thisAndNextLine := false }
 
-def hasSub (pat : Str) : Str → Bool
-  | [] => pat.isEmpty
-  | c :: r => pat.isPrefixOf (c :: r) || hasSub pat r
-
 /-- suppressions the `toString();column;checked;matched;extraComment` line can carry -/
 def Suppr.transportable (s : Suppr) : Bool :=
-  let plain (x : Str) := !x.contains ';' && !x.contains '#' && !x.contains '\n' && !hasSub ['/', '/'] x
+  -- no ';' (field separator), no line break, no '#' and no "//" (parseLine strips comments)
+  let plain (x : Str) := !x.contains ';' && !x.contains '\n' && (beforeComment x).isNone
   plain s.errorId && !s.errorId.contains ':' && plain s.fileName && plain s.symbolName &&
   -- without a line number the "last colon with no dot after it starts the line number" heuristic of parseLine
   -- must not fire on the file name itself
